@@ -85,8 +85,9 @@ def main():
         if out['confirmed']:
             dst = os.path.join(VERIF, 'seeded', name)
             os.makedirs(dst, exist_ok=True)
-            shutil.copy(patch, os.path.join(dst, 'patch.diff'))
-            shutil.copy(os.path.join(src, 'demo.py'), os.path.join(dst, 'demo.py'))
+            if os.path.realpath(dst) != os.path.realpath(src):
+                shutil.copy(patch, os.path.join(dst, 'patch.diff'))
+                shutil.copy(os.path.join(src, 'demo.py'), os.path.join(dst, 'demo.py'))
             meta = {}
             try:
                 meta = json.load(open(os.path.join(src, 'meta.json')))
